@@ -7,5 +7,5 @@ export GOFLAGS= GOPROXY=off GOSUMDB=off GOTOOLCHAIN=local
 mkdir -p bin evidence replays
 (cd tools/instr && go build -o ../../bin/instr .)
 # warm the cache with the cheapest check's build (no test is run)
-VERIF_WARM=1 ./check C20 --only '^c20$' >/dev/null 2>&1 || true
+W=$(mktemp -d); VERIF_EVIDENCE_DIR=$W VERIF_REPLAY_DIR=$W ./check C20 --only '^c20$' >/dev/null 2>&1 || true; rm -rf $W
 echo "setup done"
